@@ -126,6 +126,13 @@ def parallelise[K: Hashable, Tin, Tout](
         dict[Tin, Tout]: Dictionary mapping inputs to their corresponding outputs.
 
     """
+    # Results (and cache files) are identified by their key: with a repeated key
+    # rows would be dropped or one row's result returned for another
+    keys = [key for key, _ in inputs]
+    if len(set(keys)) != len(keys):
+        msg = "Every input needs its own key (e.g. a unique index of the scan table)"
+        raise ValueError(msg)
+
     if cache is not None:
         cache.tmp_dir.mkdir(parents=True, exist_ok=True)
 
